@@ -329,6 +329,8 @@ package capnp
 
 //@ iface Arena.NumSegments -> n
 //@   modifies nothing
+//@   -- ASSUMED: "NumSegments ... must not be larger than 1<<32" (Arena documentation)
+//@   ensures n >= 0 && n <= 1<<32
 
 //@ iface Arena.Data -> data, err
 //@   modifies nothing
